@@ -116,6 +116,10 @@ pub enum Surgery {
     /// lookup whose value records carry VariationIndex device tables into that store.
     /// No corpus font has variable GPOS data.
     InstallVarGpos { glyphs: Vec<u16>, variant: u64 },
+    /// Replace GSUB by a small table whose `calt` feature holds a ReverseChainSingleSubst
+    /// (lookup type 8; only one large corpus font has one) keyed on `glyphs`, with format 1 or 2
+    /// coverages and optional backtrack / lookahead coverages, followed by a SingleSubst.
+    InstallReverseChain { glyphs: Vec<u16>, variant: u64 },
     /// Re-pack `hmtx` with only `num_h_metrics` long metrics (glyphs after that take the last
     /// advance and keep their side bearing) and update `hhea`. Every corpus CFF2 font and most
     /// others have numberOfHMetrics == numGlyphs, which hides the compact form from the writers.
